@@ -226,7 +226,7 @@ fn run_rows(cols: &Arc<Vec<Column>>, rows: &[Vec<Val>], st: &mut Stats) -> Resul
     }
     if o.calls.iter().any(|c| c.res.is_err()) {
         // nothing undecodable may have been sent
-        match decode_all(&o.sim.out, &conv, &s.last_seq, 2, true) {
+        match decode_all(delivered(&o), &conv, &s.last_seq, 2, true) {
             Ok(_) => {}
             Err(e) if e.contains("server output ends where") => {}
             Err(e) => return Err(Violation::new("refused-but-emitted", format!("a write was refused but the transport holds undecodable output: {}", e))),
@@ -236,7 +236,7 @@ fn run_rows(cols: &Arc<Vec<Column>>, rows: &[Vec<Val>], st: &mut Stats) -> Resul
     if !o.res.is_ok() {
         return Err(Violation::new("result-not-ok", format!("run_on returned {}", o.res.short())));
     }
-    let d = decode_all(&o.sim.out, &conv, &s.last_seq, 3, false).map_err(|e| Violation::new("row-undecodable", e))?;
+    let d = decode_all(delivered(&o), &conv, &s.last_seq, 3, false).map_err(|e| Violation::new("row-undecodable", e))?;
     let (defs, got) = match &d.replies[1][..] {
         [Unit::ResultSet { cols: defs, rows: got, end: Ok(_) }] => (defs.clone(), got.clone()),
         other => return Err(Violation::new("rows-missing", format!("reply is {:?}", other.iter().map(|u| format!("{:?}", u).chars().take(60).collect::<String>()).collect::<Vec<_>>()))),
@@ -793,7 +793,7 @@ impl Family for Recover {
             // the implementation refuses to continue the row: acceptable, as long as nothing
             // malformed was sent
             st.bump("recovery_not_supported");
-            return match decode_all(&o.sim.out, &conv, &s.last_seq, 2, true) {
+            return match decode_all(delivered(&o), &conv, &s.last_seq, 2, true) {
                 Ok(_) => Ok(()),
                 Err(e) if e.contains("server output ends where") => Ok(()),
                 Err(e) => Err(Violation::new("refused-but-emitted", e)),
@@ -802,7 +802,7 @@ impl Family for Recover {
         if !o.res.is_ok() {
             return Err(Violation::new("result-not-ok", format!("{} at column {}: run_on returned {}", what, pos, o.res.short())));
         }
-        let dd = decode_all(&o.sim.out, &conv, &s.last_seq, 3, false).map_err(|e| Violation::new("row-undecodable", format!("{} at column {}: {}", what, pos, e)))?;
+        let dd = decode_all(delivered(&o), &conv, &s.last_seq, 3, false).map_err(|e| Violation::new("row-undecodable", format!("{} at column {}: {}", what, pos, e)))?;
         match &dd.replies[1][..] {
             [Unit::ResultSet { rows, .. }] if rows.len() == 1 + second_row as usize => {
                 let r = rows.last().unwrap();
